@@ -93,8 +93,15 @@ def class_source(case, base):
     spec_levels = 1 + max([sd["lvl"] for sd in case["states"]] + [od["lvl"] for od in case.get("over", [])])
     defs = [(sd["lvl"], sd) for sd in case["states"]] + [(od["lvl"], od) for od in case.get("over", [])]
     out = []
+    diamond = bool(case.get("diamond")) and spec_levels == 3
+    if diamond:
+        spec_levels = 4  # L0 <- L1, L0 <- L2, L3(L1, L2) with an empty body
     for lvl in range(spec_levels):
         parent = f"Rec, {base}" if lvl == 0 else f"L{lvl-1}"
+        if diamond and lvl == 2:
+            parent = "L0"
+        if diamond and lvl == 3:
+            parent = "L1, L2"
         out.append(f"class L{lvl}({parent}):")
         body = []
         seen = []
@@ -706,9 +713,14 @@ class Driver:
                         model.op_next_state(op[1])
                     elif k == "dur":
                         n, us, via = op[1], op[2], op[3]
-                        if not spec.timed(n) or (model.cur == n and model.has_run[n]):
+                        if not spec.timed(n):
                             model.bump("skipped-op")
                             continue
+                        if model.cur == n and model.has_run[n]:
+                            # the state is running: its duration was fixed at entry, the edit only counts from the next entry
+                            model.bump("dur-edit-while-running")
+                            if via == "exact":
+                                continue
                         val = us * 1e-6
                         if via == "exact":
                             # duration := the tm the harness will observe k iterations from now if the
@@ -938,7 +950,7 @@ def decode_shape(code, profile):
     scodes, first_i, lev_c, has_def, dcode, ocode = code
     nreg = len(scodes)
     names = [f"s{i}" for i in range(nreg)]
-    levels = [1, 1, 1, 2, 2, 3][lev_c]
+    levels = [1, 1, 2, 2, 3, 3][lev_c]
     timed_cut = {"C02": 2, "C13": 4}.get(profile, 5)  # kind code >= cut -> timed
     first_i %= nreg
     states = []
@@ -970,7 +982,10 @@ def decode_shape(code, profile):
     case = {"states": states}
     present, which, mode, lvl_up, dur_pool, sig_c, nxt_c = ocode
     cand = [sd for sd in states if sd["kind"] != "default" and sd["lvl"] < levels - 1]
-    if present >= 4 and cand:
+    diamond = lev_c == 5  # levels == 3 arranged as a diamond (see class_source)
+    if diamond:
+        cand = [sd for sd in cand if sd["lvl"] == 0]  # only states of the common base are redefined, in either branch
+    if (present >= 4 or (diamond and present >= 1)) and cand:
         o = dict(cand[which % len(cand)])
         o["lvl"] = min(levels - 1, o["lvl"] + 1 + lvl_up % 2)
         o["script"] = []
@@ -990,6 +1005,10 @@ def decode_shape(code, profile):
         elif m == "mf":
             o["mf"] = not o.get("mf")
         case["over"] = [o]
+    if diamond and max([sd["lvl"] for sd in states] + [od["lvl"] for od in case.get("over", [])]) == 2:
+        case["diamond"] = True
+        for sd in states + case.get("over", []):
+            sd["nobj"] = False  # a next_state object reference needs the target in the same class body
     return case
 
 
@@ -1034,8 +1053,6 @@ def decode_sm_case(code, profile):
     case["cname"] = ["m", "shooter", "arm2"][cname_c]
     if t0_c == 2:
         case["objrefs"] = True
-    if t0_c == 4 and "over" not in case:
-        case["sibling"] = True
     return case
 
 
@@ -1127,6 +1144,8 @@ class SMLab(Lab):
             classes.append("shape:default-state")
         if spec.levels > 1:
             classes.append("shape:inheritance")
+        if case.get("diamond"):
+            classes.append("shape:diamond")
         if rows is None:
             classes.append("abandoned")
         return {"nontrivial": self.nontrivial(stat, case, spec), "classes": classes}
